@@ -504,6 +504,34 @@ func (it *Interp) performEval(n *Node, ctx *execCtx, direct bool) Value {
 	if varEnv.kind == envGlobal {
 		it.declareGlobalFunctionsAndVars(d, varEnv, strict, true, lexEnv)
 	}
+	if Known.EvalVarFuncName && direct && !strict && varEnv.kind != envGlobal {
+		for e := varEnv; e != nil; e = e.outer {
+			if e.kind == envFunction {
+				if e.fnObj != nil && e.fnObj.fn.selfNamed {
+					for _, name := range d.varNames {
+						if name == e.fnObj.fn.node.S {
+							it.trap(true, "C02-eval-var-function-expression-name")
+						}
+					}
+				}
+				break
+			}
+		}
+	}
+	if Known.MappedArgsEval && direct && !strict && len(d.varNames) > 0 && varEnv.kind != envGlobal {
+		for e := varEnv; e != nil; e = e.outer {
+			if e.kind == envFunction || e.vars["arguments"] != nil {
+				if b := e.vars["arguments"]; b != nil && b.init {
+					if ao, ok := b.v.(*Object); ok && len(ao.argMap) > 0 {
+						it.trap(true, "C02-mapped-arguments-eval-var")
+					}
+				}
+				if e.kind == envFunction {
+					break
+				}
+			}
+		}
+	}
 	it.createLexBindings(d, lexEnv)
 	ectx := &execCtx{lex: lexEnv, varEnv: varEnv, strict: strict, fn: ctx.fn}
 	if !direct {
@@ -856,7 +884,7 @@ func (it *Interp) evalForInOf(s *Node, ctx *execCtx, labels []string) Completion
 	if lexical && len(names) > 0 {
 		tdz := newDeclEnv(ctx.lex)
 		for _, n := range names {
-			tdz.createMutable(n, false)
+			tdz.createMutable(n, false).constDecl = s.A.S == "const"
 		}
 		c2 := *ctx
 		c2.lex = tdz
